@@ -3,11 +3,11 @@ package main
 // Encoder: go/ssa function -> guarded SMT definitions + proof obligations.
 
 import (
-	"os"
 	"fmt"
 	"go/ast"
 	"go/token"
 	"go/types"
+	"os"
 	"sort"
 	"strings"
 
@@ -121,33 +121,35 @@ type headerState struct {
 }
 
 type Enc struct {
-	w        *World
-	d        *Decls
-	root     *ssa.Function
-	contract *Contract
-	body     []string
-	n        int
-	obls     []*Oblig
-	warns    map[string]bool
-	keySort  map[string]string
-	keyType  map[string]types.Type
-	loopMods map[*ssa.BasicBlock]map[string]bool
-	loopAll  map[*ssa.BasicBlock]bool
-	used     map[string]bool // contracts applied (callee keys)
-	inlined  map[string]bool
-	opaque   map[string]bool
-	hid      int
-	frameN   int
-	strs     map[string]string
-	alloc0   string
-	quiet    bool // do not record obligations (dry evaluation)
-	stack    []*ssa.Function
-	specUsed map[string]bool
-	axiomsIn bool
-	loops    map[*ssa.BasicBlock]int // header -> ordinal (root only)
-	fatal    []string
-	ghostT   map[string]types.Type
-	typeIDs  map[string]int
+	renameDone bool
+	renameMap  map[string]string
+	w          *World
+	d          *Decls
+	root       *ssa.Function
+	contract   *Contract
+	body       []string
+	n          int
+	obls       []*Oblig
+	warns      map[string]bool
+	keySort    map[string]string
+	keyType    map[string]types.Type
+	loopMods   map[*ssa.BasicBlock]map[string]bool
+	loopAll    map[*ssa.BasicBlock]bool
+	used       map[string]bool // contracts applied (callee keys)
+	inlined    map[string]bool
+	opaque     map[string]bool
+	hid        int
+	frameN     int
+	strs       map[string]string
+	alloc0     string
+	quiet      bool // do not record obligations (dry evaluation)
+	stack      []*ssa.Function
+	specUsed   map[string]bool
+	axiomsIn   bool
+	loops      map[*ssa.BasicBlock]int // header -> ordinal (root only)
+	fatal      []string
+	ghostT     map[string]types.Type
+	typeIDs    map[string]int
 
 	cellOp         map[string]Operand
 	curRootBlock   *ssa.BasicBlock
